@@ -15,6 +15,7 @@ import (
 	"sync/atomic"
 
 	"bfeverif/harness/internal/vh"
+	"github.com/bfenetworks/bfe/bfe_balance"
 	"github.com/baidu/go-lib/web-monitor/metrics"
 	"github.com/bfenetworks/bfe/bfe_balance/bal_gslb"
 	"github.com/bfenetworks/bfe/bfe_basic"
@@ -254,5 +255,159 @@ func genG(r *vh.Rand) string {
 		}
 	}
 	ops = append(ops, "gbal", "gst")
+	return strings.Join(ops, ";")
+}
+
+// ---- BalTable level: `t=<conf0>/<conf1>;<step>;..` (two clusters c0, c1; an empty conf = the cluster is absent)
+// step = tbal:<k>        Lookup("c<k>") then Balance          → ret | nolookup
+//      | trl:<conf0>/<conf1>   BalTableReload(gslb conf, backend conf)   → ok | rej (some cluster conf rejected)
+//      | tst | tver      GetState / GetVersions              → ret
+// every step under the deadline: a table or cluster mutex left locked shows as HANG.
+
+func tConfs(parts []string, ver int) (gslb_conf.GslbConf, cluster_table_conf.ClusterTableConf, bool) {
+	clusters := gslb_conf.GslbClustersConf{}
+	all := cluster_table_conf.AllClusterBackend{}
+	for k, p := range parts {
+		if p == "" {
+			continue
+		}
+		c, ids, ok := parseGConf(p)
+		if !ok {
+			return gslb_conf.GslbConf{}, cluster_table_conf.ClusterTableConf{}, false
+		}
+		name := fmt.Sprintf("c%d", k)
+		clusters[name] = c
+		all[name] = gBackends(ids)
+	}
+	host, ts, v := "verif", strconv.Itoa(ver), strconv.Itoa(ver)
+	return gslb_conf.GslbConf{Clusters: &clusters, Hostname: &host, Ts: &ts},
+		cluster_table_conf.ClusterTableConf{Version: &v, Config: &all}, true
+}
+
+func execT(steps []string) string {
+	gInitCounters()
+	t := bfe_balance.NewBalTable(nil)
+	ver := 1
+	first := strings.Split(steps[0][2:], "/")
+	if len(first) != 2 {
+		return "bad-op"
+	}
+	var out []string
+	run := func(call func() string) bool {
+		r := safeTimeout(call)
+		if r == "HANG" {
+			atomic.AddInt32(&hangs, 1)
+			out = append(out, r)
+			return false
+		}
+		if strings.HasPrefix(r, "PANIC:") {
+			out = append(out, strings.ReplaceAll(r, " ", "_"))
+			return false
+		}
+		out = append(out, r)
+		return true
+	}
+	reload := func(parts []string) (func() string, bool) {
+		gc, bc, ok := tConfs(parts, ver)
+		ver++
+		return func() string {
+			if err := t.BalTableReload(gc, bc); err != nil {
+				return "rej"
+			}
+			return "ok"
+		}, ok
+	}
+	call, ok := reload(first)
+	if !ok {
+		return "bad-op"
+	}
+	if !run(call) {
+		return strings.Join(out, " ")
+	}
+	for _, st := range steps[1:] {
+		var call func() string
+		switch {
+		case strings.HasPrefix(st, "tbal:"):
+			k, err := strconv.Atoi(st[5:])
+			if err != nil || k < 0 || k > 1 {
+				return "bad-op"
+			}
+			call = func() string {
+				g, err := t.Lookup(fmt.Sprintf("c%d", k))
+				if err != nil {
+					return "nolookup"
+				}
+				g.Balance(gRequest())
+				return "ret"
+			}
+		case st == "tst":
+			call = func() string { t.GetState(); return "ret" }
+		case st == "tver":
+			call = func() string { t.GetVersions(); return "ret" }
+		case strings.HasPrefix(st, "trl:"):
+			parts := strings.Split(st[4:], "/")
+			if len(parts) != 2 {
+				return "bad-op"
+			}
+			var ok bool
+			if call, ok = reload(parts); !ok {
+				return "bad-op"
+			}
+		default:
+			return "bad-op"
+		}
+		if !run(call) {
+			break
+		}
+	}
+	return strings.Join(out, " ")
+}
+
+func genT(r *vh.Rand) string {
+	conf := func(rejected bool) string {
+		if r.Chance(1, 8) {
+			return "" // cluster absent
+		}
+		n := r.Range(1, 3)
+		p := make([]string, n)
+		any := false
+		for i := range p {
+			w := r.Range(0, 40)
+			if rejected {
+				w = -r.Intn(2)
+			}
+			if w > 0 {
+				any = true
+			}
+			p[i] = fmt.Sprintf("%d=%d", i*r.Range(1, 2)+i, w)
+		}
+		if !rejected && !any {
+			p[0] = fmt.Sprintf("%d=%d", 0, r.Range(1, 40))
+			if n > 1 && strings.HasPrefix(p[1], "0=") {
+				p = p[:1]
+			}
+		}
+		// ids must be distinct
+		seen := map[string]bool{}
+		q := p[:0]
+		for _, e := range p {
+			id := strings.Split(e, "=")[0]
+			if !seen[id] {
+				seen[id] = true
+				q = append(q, e)
+			}
+		}
+		return strings.Join(q, ",")
+	}
+	ops := []string{"t=" + conf(false) + "/" + conf(false)}
+	plain := []string{"tbal:0", "tbal:1", "tbal:0", "tst", "tver"}
+	for i := r.Range(2, 6); i > 0; i-- {
+		if r.Chance(2, 5) {
+			ops = append(ops, "trl:"+conf(r.Chance(1, 3))+"/"+conf(r.Chance(1, 3)), r.Pick(plain...), "tbal:"+strconv.Itoa(r.Intn(2)))
+		} else {
+			ops = append(ops, r.Pick(plain...))
+		}
+	}
+	ops = append(ops, "tbal:0", "tbal:1", "tst")
 	return strings.Join(ops, ";")
 }
